@@ -312,3 +312,74 @@ CONTRACTS.append(Contract(
              ('namespace-and-host-give-an-INSTANCEPATH',
               f'implies({HAS_NS} and {HAS_HOST}, isinstance(result, _cim_xml.INSTANCEPATH))')],
     raises={}))
+
+# ---- 6. CIMInstance.tocimxml(ignore_path): INSTANCE, or the VALUE.* wrapper that the path of the instance calls for
+# (docstring: no path or ignore_path -> INSTANCE; path without namespace -> VALUE.NAMEDINSTANCE; namespace without host
+# -> VALUE.OBJECTWITHLOCALPATH; else VALUE.INSTANCEWITHPATH).  properties is read with .items() and .values(): modelled
+# as a dictionary with string keys whose values are CIMProperty objects (the setter of CIMInstance.properties ensures it)
+prop_tocimxml_c = Contract(O + 'CIMProperty.tocimxml', returns=Ref('Element'), trusted=True,
+                           notes='proved above, per shape of the property')
+own_path_tocimxml_c = Contract(
+    # (isinstance is decided by the class tag of a reference: the result is one of the three element classes, and the
+    # postconditions say which)
+    O + 'CIMInstanceName.tocimxml', returns=Union(Ref('INSTANCENAME'), Ref('LOCALINSTANCEPATH'), Ref('INSTANCEPATH')),
+    trusted=True,
+    requires=[('the-own-path-is-encoded-completely', 'self is caller_self.path and not ignore_host and not ignore_namespace')],
+    ensures=[f'implies(not {HAS_NS}, isinstance(result, _cim_xml.INSTANCENAME))',
+             f'implies({HAS_NS} and not {HAS_HOST}, isinstance(result, _cim_xml.LOCALINSTANCEPATH))',
+             f'implies({HAS_NS} and {HAS_HOST}, isinstance(result, _cim_xml.INSTANCEPATH))'],
+    notes='the three postconditions are proved above (CIMInstanceName.tocimxml)')
+instance_c = Contract(
+    X + 'INSTANCE.__init__', trusted=True, raises={},
+    requires=[('the-class-name-is-handed-over', 'classname == caller_self.classname'),
+              # (no cardinality of a symbolic dictionary in the engine beyond "empty or not")
+              ('PROPERTY-children-exactly-if-the-instance-has-properties',
+               '(len(properties) == 0) == (len(caller_self.properties) == 0)'),
+              ('one-QUALIFIER-child-per-qualifier', QUALS)])
+value_namedinstance_c = Contract(
+    X + 'VALUE_NAMEDINSTANCE.__init__', trusted=True, raises={},
+    requires=[('INSTANCENAME-then-INSTANCE', 'isinstance(instancename, INSTANCENAME) and isinstance(instance, INSTANCE)')])
+value_objectwithlocalpath_c = Contract(
+    X + 'VALUE_OBJECTWITHLOCALPATH.__init__', trusted=True, raises={},
+    requires=[('LOCALINSTANCEPATH-then-INSTANCE', 'isinstance(data1, LOCALINSTANCEPATH) and isinstance(data2, INSTANCE)')])
+value_instancewithpath_c = Contract(
+    X + 'VALUE_INSTANCEWITHPATH.__init__', trusted=True, raises={},
+    requires=[('INSTANCEPATH-then-INSTANCE', 'isinstance(data1, INSTANCEPATH) and isinstance(data2, INSTANCE)')])
+WITH_PATH = '(self.path is not None and not ignore_path)'
+CONTRACTS.append(Contract(
+    O + 'CIMInstance.tocimxml',
+    params={'self': Obj('CIMInstance', classname=Str, properties=MapOf('str', ('ref', 'CIMProperty')),
+                        qualifiers=Ref('NocaseDict'), path=Opt(Obj('CIMInstanceName', **PATH))),
+            'ignore_path': Bool},
+    callees={'CIMProperty.tocimxml': prop_tocimxml_c, 'CIMQualifier.tocimxml': qual_tocimxml_c,
+             'CIMInstanceName.tocimxml': own_path_tocimxml_c, 'INSTANCE.__init__': instance_c,
+             'VALUE_NAMEDINSTANCE.__init__': value_namedinstance_c,
+             'VALUE_OBJECTWITHLOCALPATH.__init__': value_objectwithlocalpath_c,
+             'VALUE_INSTANCEWITHPATH.__init__': value_instancewithpath_c},
+    kinds=KQ,
+    ensures=[('no-path-gives-an-INSTANCE', f'implies(not {WITH_PATH}, isinstance(result, _cim_xml.INSTANCE))'),
+             ('path-without-namespace-gives-a-VALUE.NAMEDINSTANCE',
+              f'implies({WITH_PATH}, implies(self.path.namespace is None, isinstance(result, _cim_xml.VALUE_NAMEDINSTANCE)))'),
+             ('path-with-namespace-only-gives-a-VALUE.OBJECTWITHLOCALPATH',
+              f'implies({WITH_PATH}, implies(self.path.namespace is not None and self.path.host is None, '
+              'isinstance(result, _cim_xml.VALUE_OBJECTWITHLOCALPATH)))'),
+             ('path-with-namespace-and-host-gives-a-VALUE.INSTANCEWITHPATH',
+              f'implies({WITH_PATH}, implies(self.path.namespace is not None and self.path.host is not None, '
+              'isinstance(result, _cim_xml.VALUE_INSTANCEWITHPATH)))')],
+    raises={}))
+
+# ---- 7. CIMClass.tocimxml: CLASS (three NocaseDicts with different item classes: see the remark at CIMMethod)
+class_c = Contract(
+    X + 'CLASS.__init__', trusted=True, raises={},
+    requires=[('class-name-and-superclass-are-handed-over',
+               'classname == caller_self.classname and superclass == caller_self.superclass'),
+              ('one-PROPERTY-child-per-property', 'len(properties) == len(caller_self.properties.values())'),
+              ('one-METHOD-child-per-method', 'len(methods) == len(caller_self.methods.values())'),
+              ('one-QUALIFIER-child-per-qualifier', QUALS)])
+CONTRACTS.append(Contract(
+    O + 'CIMClass.tocimxml',
+    params={'self': Obj('CIMClass', classname=Str, superclass=Opt(Str), properties=Ref('NocaseDict'),
+                        methods=Ref('NocaseDict'), qualifiers=Ref('NocaseDict'))},
+    callees={'tocimxml': child_tocimxml_c, 'CLASS.__init__': class_c}, kinds=ANY_CHILD,
+    ensures=[('a-CLASS-element', 'isinstance(result, _cim_xml.CLASS)')],
+    raises={}))
